@@ -186,19 +186,11 @@ func (c *checker) trieNodes(r *rand.Rand, n int) {
 			}
 			continue
 		}
-		if malformed {
-			if serr == nil {
-				c.sum.Violate("GetTrieNodes with an empty path set was not refused", desc)
-			}
-			continue
-		}
-		if serr != nil {
-			c.sum.Violate(fmt.Sprintf("GetTrieNodes refused a well-formed request: %v", serr), desc)
-			continue
-		}
-		// expected answer: flatten in order, following the serving rules
+		// expected answer: flatten in order, following the serving rules; an empty path set (always
+		// the last one here) is refused with an error if the server gets that far
 		var flat [][]byte
 		size := 0
+		stopped := false
 		for si, ws := range expect {
 			if !setOK[si] {
 				continue
@@ -215,8 +207,19 @@ func (c *checker) trieNodes(r *rand.Rand, n int) {
 				}
 			}
 			if size > budget {
+				stopped = true
 				break
 			}
+		}
+		if malformed && !stopped {
+			if serr == nil {
+				c.sum.Violate("GetTrieNodes with an empty path set was not refused", desc)
+			}
+			continue
+		}
+		if serr != nil {
+			c.sum.Violate(fmt.Sprintf("GetTrieNodes refused a well-formed request: %v", serr), desc)
+			continue
 		}
 		same := len(flat) == len(nodes)
 		for j := 0; same && j < len(flat); j++ {
